@@ -13,7 +13,8 @@ Proof.
   destruct (q_rid r <? 0); [discriminate|]. destruct (q_rid r <? zlen (irefs ix) - 1); [discriminate|].
   destruct (inb _ _); [|discriminate]. unfold chk in H.
   destruct (ix_upd_bins _ _ _); destruct (q_start r <? _); try discriminate;
-    destruct (ix_linear _ _ _ _); try discriminate; simpl in H; inversion H; subst; simpl; auto.
+    destruct (ix_linear _ _ _ _); try discriminate; simpl in H; inversion H; subst; simpl; auto;
+    destruct (_ >? _); auto.
 Qed.
 
 Lemma fold_add_unsorted rs : forall ix ix', isorted ix = false -> ix_fold_add ix rs = Ok ix' -> isorted ix' = false.
